@@ -52,6 +52,18 @@ func c11Same(a, b []types.Entry) bool {
 	return true
 }
 
+func c11DeepCopy(es []types.Entry) []types.Entry {
+	out := make([]types.Entry, len(es))
+	for i, e := range es {
+		out[i] = e
+		out[i].Key = strings.Clone(e.Key)
+		if e.Value != nil {
+			out[i].Value = append([]byte{}, e.Value...)
+		}
+	}
+	return out
+}
+
 func c11List(es []c11Ent) string {
 	var p []string
 	for _, e := range es {
@@ -173,6 +185,18 @@ func c11RtWAL(c *Ctx, es []c11Ent, split int) {
 	if err != nil || !c11Same(in, got) {
 		c.Violation("c11/wal/mismatch/"+c11SizeClass(es), fmt.Sprintf("WAL of %s (split %d) reads back %d entries (err %v) that differ from the original", c11List(es), split, len(got), err), nil, cs)
 		return
+	}
+	snap := c11DeepCopy(got)
+	if err := w.Write(in...); err == nil {
+		if again, err := w.Read(); err != nil || len(again) != 2*len(in) || !c11Same(in, again[:len(in)]) || !c11Same(in, again[len(in):]) {
+			c.Violation("c11/wal/mismatch-second-batch/"+c11SizeClass(es), fmt.Sprintf("WAL of %s written twice reads back %d entries (err %v) that differ from the original twice", c11List(es), len(again), err), nil, cs)
+			return
+		}
+		if !c11Same(got, snap) {
+			c.Violation("c11/unstable-decoded/WAL.Read", fmt.Sprintf("entries handed out by WAL.Read of %s changed after a later Write/Read", c11List(es)), nil, cs)
+			return
+		}
+		in = append(append([]types.Entry{}, in...), in...)
 	}
 	w.Close()
 	names := vos.CurFS().Names()
@@ -408,6 +432,25 @@ func c11StabilityScenario(variant int, obs *string) vsched.Scenario {
 			got, err := w.Read()
 			if err != nil || !c11Same(walEntries, got) {
 				verr = oerr("c11/wal-concurrent", "WAL written by two goroutines reads back %d entries (err %v), %d were acknowledged in this order", len(got), err, len(walEntries))
+				return
+			}
+			// what WAL.Read hands out must stay intact too: more encoder / wal activity (which draws from the same
+			// buffer pool), then compare with a deep copy taken at once
+			snap := c11DeepCopy(got)
+			d := table.Data{Entries: e2}
+			d.Encode()
+			if err := w.Write(e1[1]); err == nil {
+				walEntries = append(walEntries, e1[1])
+			}
+			got2, err := w.Read()
+			ix := table.Index{Entries: []table.IndexEntry{{StartKey: "zzzzzzzzzzzzzzzzzzzzzzzzzzzzzzzz@1", EndKey: "zzzzzzzzzzzzzzzzzzzzzzzzzzzzzzzz@1"}}}
+			ix.Encode()
+			if !c11Same(got, snap) {
+				verr = oerr("c11/unstable-decoded/WAL.Read", "entries handed out by WAL.Read changed after later encoder / wal activity")
+				return
+			}
+			if err != nil || !c11Same(walEntries, got2) {
+				verr = oerr("c11/wal-concurrent", "second WAL.Read gives %d entries (err %v), %d were acknowledged", len(got2), err, len(walEntries))
 			}
 		}
 		check := func(res vsched.Result) error {
@@ -443,6 +486,7 @@ func c11Units(tier string) []Unit {
 		{pre + "1@7", "v1", false, 7}, {pre + "2@7", "", true, 7},
 		{c11Long(65535, 'k'), "v", false, 1}, {"k", c11Long(65535, 'v'), false, 2},
 		{c11Long(65536, 'k'), "v", false, 1}, {"k", c11Long(65536, 'v'), false, 2}, {c11Long(70000, 'z'), c11Long(70000, 'w'), true, 3},
+		{c11Long(65000, 'k') + "@1", c11Long(65535, 'v'), false, 1}, // both fields near the largest size the engine accepts
 	}
 	// (1) Data codec: all lists of length <= 2 over the small alphabet; length 3 with a reduced alphabet (thorough: fuller)
 	nSh := 8
